@@ -9,7 +9,7 @@ B=$("$VERIF/tools/buildlib.sh" "$VARIANT")
 R=$("$VERIF/tools/buildref.sh")
 case "$VARIANT" in
   plain) FLAGS="-O2" ;;
-  asan)  FLAGS="-O1 -fsanitize=address,undefined -fno-sanitize=float-divide-by-zero -fsanitize-recover=all" ;;
+  asan)  FLAGS="-O1 -fsanitize=address,undefined -fno-sanitize=float-divide-by-zero -fsanitize-recover=all -D_GLIBCXX_ASSERTIONS" ;;
   tsan)  FLAGS="-O1 -fsanitize=thread" ;;
 esac
 NAME=$(basename "$SRC" | sed 's/\.[a-z]*$//')
